@@ -52,6 +52,8 @@ def _sampler_cfgs_all():
         for ns in NS:
             for nb in NB:
                 out.append({"sampler": "mhcustom", "g": g, "nsamples": ns, "nburnout": nb})
+                if ns in (3, 7) and nb in (0, 3):
+                    out.append({"sampler": "mhcustom", "g": g, "nsamples": ns, "nburnout": nb, "stepmode": "buffer"})
     for ns in (5, 20, 60):
         for bounds in ("inf", "fin", "half"):
             out.append({"sampler": "dummy1d", "nsamples": ns, "bounds": bounds})
@@ -364,9 +366,18 @@ def run_case(cfg):
     if unused == "p_explicit":
         ppar = ppar + [un_t]
 
+    stepbuf = []
+
     def custom_step(x, *pp):
         logs["step"].append((phase[0], _xkey(x)))
-        return g_step(cfg["g"], x)
+        nxt = g_step(cfg["g"], x)
+        if cfg.get("stepmode") == "buffer":
+            # a step function that returns its (reused) work buffer: the sampler has to copy the state it stores
+            if not stepbuf:
+                stepbuf.append(torch.empty_like(nxt))
+            stepbuf[0].copy_(nxt)
+            return stepbuf[0]
+        return nxt
 
     if sampler == "mhcustom":
         method = "mhcustom"
